@@ -94,6 +94,10 @@ def suites(prop: str, tier: str) -> t.List[Suite]:
             Suite('shared-gated-start', ['corpus', 'switch', 'oneof'], ['kwargs'], 0, ['async'], collab={'mode': 'gated', 'gate_kinds': ['node_start']},
                   symptoms=KW, plans='ok', max_nodes=8 if q else 9, require_tag='node-requested-from-two-scopes', limit=30000),
             Suite('composed', COMPOSED, ['kwargs'], 0, ['async'] if q else ['async', 'thread'], symptoms=KW),
+            # a reader outside a recurrent subgraph held in its on_node_start hook while the subgraph re-iterates: it may get the
+            # first or the new value of the inner node (F-D12), never a None placeholder
+            Suite('outside-reader-gated-start', ['rec', 'recx', 'corpus'], ['kwargs'], 0, ['async'], collab={'mode': 'gated', 'gate_kinds': ['node_start']},
+                  symptoms=KW, plans='ok', max_nodes=5 if q else 6, require_tag='rec.outside-reader', limit=30000),
             Suite('d1', ['corpus', 'rec'] + ([] if q else ['plain', 'oneof', 'switch', 'mix']), ['kwargs'], 1, ['thread'], symptoms=KW, max_nodes=4 if q else 5),
         ] + ([] if q else [Suite('d2', ['corpus', 'rec', 'oneof', 'switch'], ['kwargs'], 2, ['thread'], symptoms=KW, max_nodes=5, limit=20000)])
     if prop == 'C04':
